@@ -17,6 +17,15 @@
 //!   process (fresh `RandomState` keys each) and run once more in this process; the three
 //!   outputs must be byte-identical.  A difference is a violation whose detail carries the
 //!   first differing lines; `--only i` replays one case of either kind.
+//!   TIME DILATION: the same triple is run again while wall-clock time is stretched, and must
+//!   still give the identical output (a harness that reads the real clock - e.g. a component
+//!   built with ProductionClock - passes a plain double run on a fast machine):
+//!     mode "stall": the worker (`--dilate stall`) sleeps 70 ms before selected steps of a
+//!       step-wise harness - for streaming/compaction before every rare operation (flush,
+//!       crash-recover, compact) found in a first undilated pass, for the others at a seeded
+//!       subset of steps;
+//!     mode "stop": the parent stops the running child with SIGSTOP for 70 ms every ~3 ms of
+//!       run time (works for every harness, also those that run in one call).
 use rand::{Rng as _, RngCore, SeedableRng};
 use rand_chacha::ChaCha8Rng;
 use redis_sim::redis::{Command, CommandExecutor, Value as RValue, SDS};
@@ -109,10 +118,74 @@ const HARNESSES: &[(&str, &[&str])] = &[
     ("io_sim", &["calm", "moderate", "chaos"]),
 ];
 
+// ---- time dilation inside the worker ("stall" mode) ------------------------------------
+const STALL_MS: u64 = 70; // above the 50 ms flush_interval of WriteBufferConfig::test()
+struct Stall {
+    on: bool,
+    seed: u64,
+    used: usize,
+    targeted: Option<BTreeSet<usize>>,
+}
+static STALL: std::sync::Mutex<Stall> = std::sync::Mutex::new(Stall { on: false, seed: 0, used: 0, targeted: None });
+
+/// called before step `i` of a step-wise harness; sleeps in dilated runs only
+fn stall_point(i: usize) {
+    let go = {
+        let mut st = STALL.lock().unwrap();
+        if !st.on {
+            return;
+        }
+        let hit = match &st.targeted {
+            Some(set) => set.contains(&i),
+            None => st.used < 8 && (i == 1 || (st.seed ^ (i as u64).wrapping_mul(0x9E37_79B9_7F4A_7C15)).rotate_left(17) % 23 == 0),
+        };
+        if hit {
+            st.used += 1;
+        }
+        hit
+    };
+    if go {
+        std::thread::sleep(std::time::Duration::from_millis(STALL_MS));
+    }
+}
+fn stall_target(set: Option<BTreeSet<usize>>) {
+    let mut st = STALL.lock().unwrap();
+    st.targeted = set;
+}
+fn stalling() -> bool {
+    STALL.lock().unwrap().on
+}
+/// indices of the rare operations of a history (everything that is not a plain write/delete),
+/// at most `cap`, the rarest kind first
+fn rare_ops(kinds: &[String], cap: usize) -> BTreeSet<usize> {
+    let mut by_kind: BTreeMap<&str, Vec<usize>> = BTreeMap::new();
+    for (i, k) in kinds.iter().enumerate() {
+        if k != "Write" && k != "Delete" {
+            by_kind.entry(k.as_str()).or_default().push(i);
+        }
+    }
+    let mut groups: Vec<Vec<usize>> = by_kind.into_values().collect();
+    groups.sort_by_key(|g| g.len());
+    let mut out = BTreeSet::new();
+    for g in groups {
+        for i in g {
+            if out.len() < cap {
+                out.insert(i);
+            }
+        }
+    }
+    out
+}
+fn kind_of<T: std::fmt::Debug>(op: &T) -> String {
+    let s = format!("{:?}", op);
+    s.split(|c: char| !c.is_alphanumeric()).next().unwrap_or("").to_string()
+}
+
 macro_rules! step_dst {
     ($o:ident, $h:ident, $ops:expr) => {{
         // one operation at a time so that the per-step log is visible (run(n) is the same loop)
         for i in 0..$ops {
+            stall_point(i);
             $h.run(1);
             writeln!($o, "op[{}] {:?}", i, $h.result().last_op).unwrap();
             if !$h.result().invariant_violations.is_empty() {
@@ -188,6 +261,7 @@ fn worker(harness: &str, preset: &str, seed: u64) -> String {
                     let mut h = $t::new(cfg);
                     // the replicas are private; the only per-phase observable is the result record
                     for phase in 0..4 {
+                        stall_point(phase);
                         h.run(25);
                         let r = h.result();
                         writeln!(o, "phase[{}] total={} ops_per_replica={} violations={}", phase, r.total_operations, sorted_map(r.ops_per_replica.iter()), r.invariant_violations.len()).unwrap();
@@ -226,6 +300,7 @@ fn worker(harness: &str, preset: &str, seed: u64) -> String {
             let mut sim = DSTSimulation::with_config(cfg);
             let mut trace = String::new();
             for i in 0..300 {
+                stall_point(i);
                 sim.step();
                 let running: Vec<bool> = (0..sim.config().node_count).map(|n| sim.is_node_running(n)).collect();
                 writeln!(trace, "step[{}] t={:?} running={:?}", i, sim.current_time(), running).unwrap();
@@ -247,7 +322,12 @@ fn worker(harness: &str, preset: &str, seed: u64) -> String {
             buggify::reset_stats();
             buggify::set_config(fc.clone());
             let mut sim = RedisDSTSimulation::new(seed, 5).with_faults(fc);
-            let r = sim.run(150).clone();
+            // run(1) x 150: one step per call so that a dilated run can stall between steps
+            for i in 0..150 {
+                stall_point(i);
+                sim.run(1);
+            }
+            let r = sim.run(0).clone();
             print_sim_result(&mut o, &r);
             writeln!(o, "stats {:?} converged={}", sim.stats(), sim.check_convergence()).unwrap();
         }
@@ -255,9 +335,24 @@ fn worker(harness: &str, preset: &str, seed: u64) -> String {
             use redis_sim::streaming::dst::*;
             let cfg = match preset { "moderate" => StreamingDSTConfig::moderate(seed), "chaos" => StreamingDSTConfig::chaos(seed), _ => StreamingDSTConfig::calm(seed) };
             let rt = tokio::runtime::Builder::new_current_thread().enable_all().start_paused(true).build().unwrap();
+            // run(1) x 150 is the loop of run(150); a dilated run first learns where the rare
+            // operations (Flush, CrashRecover) are from an undilated pass, then stalls before them
+            if stalling() {
+                stall_target(Some(BTreeSet::new()));
+                let cfg1 = cfg.clone();
+                let kinds: Vec<String> = rt.block_on(async {
+                    let mut h = StreamingDSTHarness::new(cfg1).await;
+                    h.run(150).await;
+                    h.into_result().history.iter().map(|r| kind_of(&r.operation)).collect()
+                });
+                stall_target(Some(rare_ops(&kinds, 14)));
+            }
             let r = rt.block_on(async {
                 let mut h = StreamingDSTHarness::new(cfg).await;
-                h.run(150).await;
+                for i in 0..150 {
+                    stall_point(i);
+                    h.run(1).await;
+                }
                 h.check_invariants().await;
                 h.into_result()
             });
@@ -269,9 +364,22 @@ fn worker(harness: &str, preset: &str, seed: u64) -> String {
             use redis_sim::streaming::compaction_dst::*;
             let cfg = match preset { "aggressive" => CompactionDSTConfig::aggressive(seed), "chaos" => CompactionDSTConfig::chaos(seed), _ => CompactionDSTConfig::calm(seed) };
             let rt = tokio::runtime::Builder::new_current_thread().enable_all().start_paused(true).build().unwrap();
+            if stalling() {
+                stall_target(Some(BTreeSet::new()));
+                let cfg1 = cfg.clone();
+                let kinds: Vec<String> = rt.block_on(async {
+                    let mut h = CompactionDSTHarness::new(cfg1).await;
+                    h.run(150).await;
+                    h.into_result().history.iter().map(|r| kind_of(&r.operation)).collect()
+                });
+                stall_target(Some(rare_ops(&kinds, 14)));
+            }
             let r = rt.block_on(async {
                 let mut h = CompactionDSTHarness::new(cfg).await;
-                h.run(150).await;
+                for i in 0..150 {
+                    stall_point(i);
+                    h.run(1).await;
+                }
                 h.check_invariants().await;
                 h.into_result()
             });
@@ -301,6 +409,7 @@ fn worker(harness: &str, preset: &str, seed: u64) -> String {
                 // the workload is a function of the seed
                 let mut w = ChaCha8Rng::seed_from_u64(seed ^ 0xC20C_20C2);
                 for round in 0..4 {
+                    stall_point(round);
                     let n = w.gen_range(0..20usize);
                     let cmds: Vec<Command> = (0..n)
                         .map(|_| {
@@ -362,6 +471,7 @@ fn worker(harness: &str, preset: &str, seed: u64) -> String {
                 if budget == 0 {
                     return;
                 }
+                stall_point(400 - budget);
                 budget -= 1;
                 match &ev.event_type {
                     EventType::HostStart => {
@@ -404,6 +514,7 @@ fn worker(harness: &str, preset: &str, seed: u64) -> String {
                 ctx.set_clock_offset(NodeId(n), off);
             }
             for i in 0..120 {
+                stall_point(i);
                 ctx.advance_by(IoDuration::from_millis(rng.gen_range(1, 500)));
                 let fault = ALL_FAULTS[rng.gen_range(0, ALL_FAULTS.len() as u64) as usize];
                 let hit = buggify::should_buggify(&mut rng, fault);
@@ -449,6 +560,7 @@ fn multi_node_worker(o: &mut String, preset: &str, seed: u64) {
     let keys: Vec<String> = (0..10).map(|i| format!("key_{}", i)).collect();
     let mut cut: Vec<(usize, usize)> = Vec::new();
     for round in 0..30 {
+        stall_point(round);
         for c in 0..w.gen_range(0..4usize) {
             let node = w.gen_range(0..n);
             let k = keys[w.gen_range(0..keys.len())].clone();
@@ -671,18 +783,72 @@ fn triple_of(seed: u64, dseeds: u64, idx: u64) -> Option<(String, String, u64)> 
     Some((h.to_string(), p.to_string(), s))
 }
 
-fn spawn_worker(h: &str, p: &str, s: u64) -> String {
+#[derive(Clone, Copy, PartialEq)]
+enum Dilation {
+    None,
+    /// the worker sleeps before selected steps
+    Stall,
+    /// the parent stops the child with SIGSTOP / SIGCONT
+    Stop,
+}
+
+fn signal(pid: u32, sig: &str) {
+    // no libc dependency in the harness crate: the shell's kill builtin
+    let _ = std::process::Command::new("sh").args(["-c", &format!("kill -{} {}", sig, pid)]).status();
+}
+
+fn spawn_worker(h: &str, p: &str, s: u64, mode: Dilation) -> String {
+    use std::io::Read;
     let exe = std::env::current_exe().unwrap();
-    let out = std::process::Command::new(exe)
-        .args(["--role", "worker", "--harness", h, "--preset", p, "--hseed", &s.to_string()])
-        .output()
-        .expect("spawn worker");
-    let mut t = String::from_utf8_lossy(&out.stdout).to_string();
-    if !out.status.success() {
-        writeln!(t, "WORKER EXIT {:?}", out.status.code()).unwrap();
+    let mut cmd = std::process::Command::new(exe);
+    cmd.args(["--role", "worker", "--harness", h, "--preset", p, "--hseed", &s.to_string()]);
+    if mode == Dilation::Stall {
+        cmd.args(["--dilate", "stall"]);
+    }
+    if mode != Dilation::Stop {
+        let out = cmd.output().expect("spawn worker");
+        let mut t = String::from_utf8_lossy(&out.stdout).to_string();
+        if !out.status.success() {
+            writeln!(t, "WORKER EXIT {:?}", out.status.code()).unwrap();
+        }
+        return t;
+    }
+    // "stop" dilation: the child's wall clock runs ~25x faster than its own progress
+    let mut child = cmd.stdout(std::process::Stdio::piped()).stderr(std::process::Stdio::null()).spawn().expect("spawn worker");
+    let mut pipe = child.stdout.take().unwrap();
+    let reader = std::thread::spawn(move || {
+        let mut buf = Vec::new();
+        let _ = pipe.read_to_end(&mut buf);
+        buf
+    });
+    let pid = child.id();
+    let mut stops = 0;
+    let status = loop {
+        std::thread::sleep(std::time::Duration::from_millis(3));
+        if let Ok(Some(st)) = child.try_wait() {
+            break st;
+        }
+        if stops < 40 {
+            stops += 1;
+            signal(pid, "STOP");
+            std::thread::sleep(std::time::Duration::from_millis(STALL_MS));
+            signal(pid, "CONT");
+        } else {
+            break child.wait().expect("wait");
+        }
+    };
+    let mut t = String::from_utf8_lossy(&reader.join().unwrap_or_default()).to_string();
+    if !status.success() {
+        writeln!(t, "WORKER EXIT {:?}", status.code()).unwrap();
     }
     t
 }
+
+/// harnesses with a step loop the worker can stall in
+const STALLABLE: &[&str] = &["executor", "list", "set", "hash", "sorted_set", "transaction", "crdt_gcounter", "crdt_pncounter", "crdt_orset", "crdt_vectorclock", "multi_node", "core_dst", "redis_dst", "streaming", "compaction", "connection", "event_sim", "io_sim"];
+/// harnesses that touch persistence, WAL, compaction, TTL/expiry, clock skew or BUGGIFY timing:
+/// every one of their triples gets the dilated runs (the others: a seeded quarter)
+const CLOCK_SENSITIVE: &[&str] = &["streaming", "compaction", "wal", "executor", "scenario", "redis_dst", "core_dst", "io_sim", "connection"];
 
 fn first_diff(a: &str, b: &str) -> (usize, String, String) {
     let (la, lb): (Vec<&str>, Vec<&str>) = (a.lines().collect(), b.lines().collect());
@@ -709,18 +875,30 @@ struct Diff {
     b: String,
     c: String,
     c2: String,
+    /// dilated runs: (mode name, output)
+    dil: Vec<(&'static str, String)>,
 }
 
-fn run_triple(idx: u64, h: &str, p: &str, s: u64) -> Diff {
-    let a = spawn_worker(h, p, s);
-    let b = spawn_worker(h, p, s);
+fn run_triple(idx: u64, h: &str, p: &str, s: u64, dilate: bool) -> Diff {
+    let a = spawn_worker(h, p, s, Dilation::None);
+    let b = spawn_worker(h, p, s, Dilation::None);
+    let mut dil = Vec::new();
+    if dilate {
+        if STALLABLE.contains(&h) {
+            dil.push(("stall", spawn_worker(h, p, s, Dilation::Stall)));
+        }
+        // the generic mode: always for harnesses that run in one call, else for every other case
+        if !STALLABLE.contains(&h) || idx % 2 == 0 {
+            dil.push(("stop", spawn_worker(h, p, s, Dilation::Stop)));
+        }
+    }
     // third and fourth run inside this (long-lived) process, one after the other on one thread
     // (thread-local simulator state, if any, is carried from the first to the second)
     let (h2, p2) = (h.to_string(), p.to_string());
     let (c, c2) = std::thread::spawn(move || (run_worker_caught(&h2, &p2, s), run_worker_caught(&h2, &p2, s)))
         .join()
         .unwrap_or_else(|_| ("IN-PROCESS RUN DIED\n".to_string(), String::new()));
-    Diff { idx, h: h.to_string(), p: p.to_string(), s, a, b, c, c2 }
+    Diff { idx, h: h.to_string(), p: p.to_string(), s, a, b, c, c2, dil }
 }
 
 fn main() {
@@ -731,12 +909,17 @@ fn main() {
         let h = args.extra.get("harness").cloned().unwrap_or_default();
         let p = args.extra.get("preset").cloned().unwrap_or_default();
         let s = args.get("hseed", 0);
+        if args.extra.get("dilate").map(|m| m.as_str()) == Some("stall") {
+            let mut st = STALL.lock().unwrap();
+            st.on = true;
+            st.seed = s;
+        }
         print!("{}", run_worker_caught(&h, &p, s));
         return;
     }
     std::panic::set_hook(Box::new(|_| {}));
     let mut out = Out::new(&args.out, "C20", args.shards, HEADER);
-    out.nontrivial_rule = "cases 0..n: kernel cases = scripted MultiNodeSimulation runs (2-6 nodes, broadcast or selective rf 1-3, loss 0/.1/.3/.5/.9/1, five delay ranges, 3-8 gossip rounds with writes, partitions, heals, time advances) printed for the Coq model; non-trivial = selective routing with a routing table of >= 2 targets and 0 < loss < 1 (the iteration order decides which target gets which draw); distinct by script and observed queues. cases 1000000..: (harness, preset, seed) triples, each run in two child processes and once in-process, outputs compared byte for byte (counted in impl_property_checks and the harness:<name> counters)".into();
+    out.nontrivial_rule = "cases 0..n: kernel cases = scripted MultiNodeSimulation runs (2-6 nodes, broadcast or selective rf 1-3, loss 0/.1/.3/.5/.9/1, five delay ranges, 3-8 gossip rounds with writes, partitions, heals, time advances) printed for the Coq model; non-trivial = selective routing with a routing table of >= 2 targets and 0 < loss < 1 (the iteration order decides which target gets which draw); distinct by script and observed queues. cases 1000000..: (harness, preset, seed) triples, each run in two child processes and once in-process, outputs compared byte for byte (counted in impl_property_checks and the harness:<name> counters); plus, for every triple of a clock-sensitive harness and a seeded quarter of the others, runs under time dilation (dilated:<mode>:<harness> counters) that must give the same bytes".into();
     let dseeds = args.get("dseeds", 3).max(1);
     let n_pairs: u64 = HARNESSES.iter().map(|(_, ps)| ps.len() as u64).sum();
     let n_triples = n_pairs * dseeds;
@@ -758,6 +941,13 @@ fn main() {
     let work = std::sync::Arc::new(std::sync::Mutex::new(todo.into_iter()));
     let results = std::sync::Arc::new(std::sync::Mutex::new(Vec::<Diff>::new()));
     let replaying = args.only.is_some();
+    // dilated runs cost ~0.3-1 s each: the first `dilate_seeds` seeds of every preset of a
+    // clock-sensitive harness, and a seeded quarter of the other triples
+    let dilate_seeds = args.get("dilate_seeds", dseeds);
+    let wants_dilation = move |idx: u64, h: &str| -> bool {
+        let k = (idx - TRIPLE_BASE) % dseeds;
+        replaying || (k < dilate_seeds && (CLOCK_SENSITIVE.contains(&h) || fx(&format!("dilate{}", idx)) % 4 == 0))
+    };
     let threads: Vec<_> = (0..args.get("jobs", 8))
         .map(|_| {
             let (work, results) = (work.clone(), results.clone());
@@ -765,12 +955,13 @@ fn main() {
                 let item = work.lock().unwrap().next();
                 match item {
                     Some((i, h, p, s)) => {
-                        let mut d = run_triple(i, &h, &p, s);
+                        let dl = wants_dilation(i, &h);
+                        let mut d = run_triple(i, &h, &p, s, dl);
                         // a replay repeats the comparison a few times: which iteration order a
                         // process draws is random, so one pair of runs can agree by chance
                         let mut tries = if replaying { 7 } else { 0 };
-                        while tries > 0 && d.a == d.b && d.a == d.c && d.a == d.c2 {
-                            d = run_triple(i, &h, &p, s);
+                        while tries > 0 && d.a == d.b && d.a == d.c && d.a == d.c2 && d.dil.iter().all(|(_, x)| *x == d.a) {
+                            d = run_triple(i, &h, &p, s, dl);
                             tries -= 1;
                         }
                         results.lock().unwrap().push(d);
@@ -840,8 +1031,22 @@ fn main() {
             if args.only.is_some() {
                 println!("DIFFERENT child vs second in-process run at line {}:\n  A: {}\n  C2: {}", ln, x, y);
             }
+        } else if let Some((mode, x)) = d.dil.iter().find(|(_, x)| *x != d.a) {
+            let (ln, xa, xd) = first_diff(&d.a, x);
+            out.violation(
+                d.idx,
+                &format!("harness {} preset {} seed {}: the run depends on wall-clock time - output under time dilation (mode {}) differs from the undilated run (first difference at line {})", d.h, d.p, d.s, mode, ln),
+                json!({"harness": d.h, "preset": d.p, "hseed": d.s, "dilation_mode": mode, "between": format!("undilated child process vs child process under time dilation ({})", if *mode == "stall" { "worker sleeps 70 ms before selected steps: --dilate stall" } else { "parent SIGSTOPs the child 70 ms every ~3 ms" }), "line": ln, "undilated": xa, "dilated": xd}),
+            );
+            if args.only.is_some() {
+                println!("DIFFERENT under time dilation (mode {}) at line {}:\n  undilated: {}\n  dilated:   {}", mode, ln, xa, xd);
+            }
         } else if args.only.is_some() {
-            println!("identical in 2 child processes and in 2 consecutive in-process runs");
+            println!("identical in 2 child processes, in 2 consecutive in-process runs and under time dilation {:?}", d.dil.iter().map(|(m, _)| *m).collect::<Vec<_>>());
+        }
+        for (mode, _) in &d.dil {
+            out.impl_checks += 1;
+            out.count(&format!("dilated:{}:{}", mode, d.h));
         }
     }
     // Out keeps three samples: one kernel case, then triples
